@@ -257,6 +257,31 @@ example : (0 ≤ (genesis 7 [1]).trunkHeight → ∃ b h, lookup (genesis 7 [1])
     lookup (genesis 7 [1]).B b = some h ∧ h.height = 0 ∧ b ∈ pathOf (genesis 7 [1]) (genesis 7 [1]).tip) :=
   (ledgerInv_zh _ (genesis_inv 7 [1]) 0).1
 
+/-- (c) the trunk flag marks exactly the blocks of the computed path -/
+theorem ledgerInv_flag (l : L) (I : LedgerInv l) (b : Nat) (h : Hdr) (hb : lookup l.B b = some h) :
+    h.inTrunk = true ↔ b ∈ pathOf l l.tip := by
+  rw [I.trunk b h hb, I.onPath_iff]
+
+/-- (e) `next` of a path block = the height-index entry one higher (the path block above it; none at the tip);
+off-path blocks have no `next` -/
+theorem ledgerInv_next (l : L) (I : LedgerInv l) (b : Nat) (h : Hdr) (hb : lookup l.B b = some h) :
+    (b ∈ pathOf l l.tip → h.next = lookup l.ZH (h.height + 1)) ∧ (b ∉ pathOf l l.tip → h.next = none) := by
+  rw [← I.onPath_iff]
+  exact I.next_eq hb
+
+example : ∃ h, lookup (genesis 7 [1]).B 7 = some h ∧ h.inTrunk = true ∧ h.next = lookup (genesis 7 [1]).ZH (h.height + 1) :=
+  ⟨⟨none, 0, true, none, [1]⟩, by decide, rfl, by decide⟩
+
+/-- **history form**: after any list of `confirm` operations from genesis in which no block repeats a transaction of
+its own branch (`OpsOk`; refused operations included), the invariant and `CStored` hold -/
+theorem history_inv (g : Nat) (gtxs : List Nat) (ops : List (Nat × Nat × List (Nat × Bool)))
+    (ok : OpsOk (genesis g gtxs) ops) :
+    LedgerInv (runOps (genesis g gtxs, [g]) ops).1 ∧ CStored (runOps (genesis g gtxs, [g]) ops).1 :=
+  runOps_fst (genesis g gtxs, [g]) ops (genesis_inv g gtxs) (genesis_cstored g gtxs) ok
+
+example : OpsOk (genesis 0 [0]) [(1, 0, [(1, true)]), (2, 0, [(2, true)]), (2, 0, []), (3, 2, [(1, false)]), (9, 8, [])] := by
+  decide
+
 /-- `IsTxInTrunk` answers exactly "some main-chain block contains the transaction" -/
 theorem isTxInTrunk_iff (l : L) (I : LedgerInv l) (t : Nat) :
     isTxInTrunk l t = true ↔ ∃ b h, lookup l.B b = some h ∧ b ∈ pathOf l l.tip ∧ t ∈ h.txs := by
